@@ -35,8 +35,8 @@ def units(tier):
               "_do_unknown", "_get_dict", "__setattr__"):
         us += func_units(f"{M}.{q}", tier)
     # socket-backed streams: the wrapper's loops terminate on a finite peer stream (variants), and raise nothing
-    for q in ("_recv", "read", "readline"):
-        us += func_units(f"pyrtcm.socketwrapper.SocketWrapper.{q}", tier)
+    from props.common import socket_units
+    us += socket_units(tier)  # incl. dechunk / __init__: no foreign exception out of the chunked path either
     us.append(ground_unit("C04.depth", depth_lemma))
     return us
 
